@@ -44,7 +44,7 @@ func (g *Gen) constVal(c *ssa.Const) Val {
 		case u.Info()&types.IsInteger != 0:
 			if g.bv {
 				if i, ok := constant.Int64Val(constant.ToInt(c.Value)); ok {
-					return IntV{g.num(i)}
+					return IntV{g.pnum(i)}
 				}
 				u64, _ := constant.Uint64Val(constant.ToInt(c.Value))
 				return IntV{fmt.Sprintf("(_ bv%d 64)", u64)}
@@ -235,6 +235,15 @@ func (g *Gen) execInstr(st *State, in ssa.Instruction) {
 	case *ssa.Select:
 		v, inv := g.freshVal(x.Type(), "select")
 		g.assume(st, inv)
+		if tv, ok := v.(TupleV); ok && len(tv.E) > 0 {
+			if iv, ok := tv.E[0].(IntV); ok && !g.bv {
+				lo := "0"
+				if !x.Blocking {
+					lo = "(- 1)"
+				}
+				g.assume(st, and("(<= "+lo+" "+iv.T+")", fmt.Sprintf("(< %s %d)", iv.T, len(x.States))))
+			}
+		}
 		g.regs[x] = v
 		g.note("chan", "select not modelled: outcome unconstrained")
 	case *ssa.Send:
@@ -1108,13 +1117,13 @@ func (g *Gen) bvBinop(st *State, op token.Token, a, b string, xt, rt types.Type)
 		}
 		return nar("(bvashr " + a + " " + b + ")")
 	case token.QUO:
-		g.oblige(st, "div", "", "division by zero", not(eq(b, g.num(0))))
+		g.oblige(st, "div", "", "division by zero", not(eq(b, g.pnum(0))))
 		if uns {
 			return nar("(bvudiv " + a + " " + b + ")")
 		}
 		return nar("(bvsdiv " + a + " " + b + ")")
 	case token.REM:
-		g.oblige(st, "div", "", "division by zero", not(eq(b, g.num(0))))
+		g.oblige(st, "div", "", "division by zero", not(eq(b, g.pnum(0))))
 		if uns {
 			return nar("(bvurem " + a + " " + b + ")")
 		}
